@@ -7,6 +7,7 @@
         -> (ll as a symbolic real, chi2, pivots of B, a, Ainv, ...)
    spec -> B = diag(1/ivar + s^2) + M Lambda M^T, chi2 = r^T B^-1 r, det B, Ainv = Lambda^-1 + M^T W M, a. *)
 From Coq Require Import Reals QArith ZArith List Bool Arith.
+From Bignums Require Import BigQ.
 From TJ Require Import Base.Imp Base.Corr Base.RealEnc Base.Fops Base.QMat Base.SymReal Gen.KernelPyx.
 Import ListNotations.
 Close Scope Z_scope. Open Scope Q_scope.
@@ -25,12 +26,13 @@ Record kcase := mk_kcase {
   kc_P0 : Q * Q * Q;                                 (* raw value, factor to the prior's P unit, factor to days *)
   kc_max_K : Q * Q;
   kc_theta : list Q;                                 (* P [day], e, omega, M0 [rad], s [data unit] *)
-  kc_kepler : list Q                                 (* rv of a K=1 orbit at each epoch, convention M = 2 pi (t - t_ref)/P - M0 *)
+  kc_kepler : list Q;                                (* rv of a K=1 orbit at each epoch, convention M = 2 pi (t - t_ref)/P - M0 *)
+  kc_pow : list Q                                    (* candidate double(s) for (P/P0)^(-2/3); used only if certified (Base/SymReal.v) *)
 }.
 
 Definition n_times (c : kcase) : nat := length (kc_rv c).
 Definition n_linear (c : kcase) : nat := 1 + kc_n_poly c + kc_n_offsets c.
-Definition qsr (q : Q) : sr := sr_of q.
+Definition qsr (q : Q) : sr := sr_ofQ q.
 
 (* ---- CJokerHelper.__init__: mu / Lambda slots (generated slot functions), scalars ---- *)
 Definition set_slot (a : list Q) (i : option Z) (v : Q) : list Q :=
@@ -59,7 +61,7 @@ Definition helper_P0 (c : kcase) : Q :=
   let '(v, f_prior, f_day) := kc_P0 c in if p0_in_kernel_period_unit then v * f_day else v * f_prior.
 
 Definition init_state (c : kcase) : kst (F := sr) :=
-  let z : sr := RC 0 1 in
+  let z : sr := srZ 0 in
   let zero1 : arr1 sr := fun _ => z in let zero2 : arr2 sr := fun _ _ => z in
   let '(mu, la) := helper_slots c in
   let MT : arr2 sr := fun i n => if Nat.eqb i 0 then z else qsr (nth (i - 1) (nth n (kc_trend c) []) 0) in
@@ -69,13 +71,13 @@ Definition init_state (c : kcase) : kst (F := sr) :=
 
 Definition kep_table (c : kcase) : kepler_table :=
   match kc_theta c with
-  | [P; e; om; M0; _] => [([qsr P; RC 1 1; qsr e; qsr om; qsr M0; qsr (kc_t0 c)], map qsr (kc_kepler c))]
+  | [P; e; om; M0; _] => [([qsr P; srZ 1; qsr e; qsr om; qsr M0; qsr (kc_t0 c)], map qsr (kc_kepler c))]
   | _ => []
   end.
 
 Section Run.
   Variable c : kcase.
-  Let fo := sr_fops.
+  Let fo := sr_fops (kc_pow c).
   Let orc := sr_oracles (kep_table c).
   Let nt := Z.of_nat (n_times c).
   Let nl := Z.of_nat (n_linear c).
@@ -84,7 +86,7 @@ Section Run.
   Let P0 := qsr (helper_P0 c).
   Let mK := qsr (fst (kc_max_K c) * snd (kc_max_K c)).
   Let t0 := qsr (kc_t0 c).
-  Let row : arr1 sr := of_list1 (RC 0 1) (map qsr (kc_theta c)).
+  Let row : arr1 sr := of_list1 (srZ 0) (map qsr (kc_theta c)).
 
   Definition run_marginal : kst (F := sr) * sr := k_marginal_one fo orc nt nl fk sK0 P0 mK t0 row (init_state c).
   Definition run_posterior : kst (F := sr) * sr := k_posterior_one fo orc nt nl fk sK0 P0 mK t0 row (init_state c).
@@ -92,120 +94,136 @@ Section Run.
 End Run.
 
 (* rational read-outs of a final state (None if something stayed symbolic) *)
-Definition out_vec (n : nat) (a : arr1 sr) : option (list Q) := sr_all_q (tab1 n a).
+Definition out_vec (n : nat) (a : arr1 sr) : option (list bq) := sr_all_q (tab1 n a).
 Definition out_mat (n m : nat) (a : arr2 sr) : option qmat := sr_mat_q n m a.
 
 (* ================= the specification ================= *)
+(* everything below is exact bigQ arithmetic on the case's rational inputs *)
+Definition B (q : Q) : bq := bofQ q.
+Definition pp_m (p : prior_par) : bq := bmul (B (pp_mu p)) (B (pp_factor p)).
+Definition pp_v (p : prior_par) : bq := let s := bmul (B (pp_std p)) (B (pp_factor p)) in bmul s s.
 (* design matrix in column order (K, v0, offsets, v1, ...): K column from the Kepler values, the rest from trend_M *)
-Definition spec_M (c : kcase) : qmat := map (fun nr => nth (fst nr) (kc_kepler c) 0 :: snd nr) (combine (seq 0 (n_times c)) (kc_trend c)).
-(* declared prior means and variances in the same column order; K variance by the declared rule *)
-Definition spec_K_var (c : kcase) : option Q :=
+Definition spec_M (c : kcase) : qmat :=
+  map (fun nr => B (nth (fst nr) (kc_kepler c) 0) :: map B (snd nr)) (combine (seq 0 (n_times c)) (kc_trend c)).
+(* declared prior means and variances in the same column order; K variance by the declared rule
+   Var K = min(sigma_K0^2 (P/P0)^(-2/3) / (1 - e^2), max_K^2), with P and P0 in days *)
+Definition spec_K_var (c : kcase) : option bq :=
   if kc_fixedK c then
-    match kc_lin c with p :: _ => Some ((pp_std p * pp_factor p) * (pp_std p * pp_factor p)) | [] => None end
+    match kc_lin c with p :: _ => Some (pp_v p) | [] => None end
   else
     match kc_theta c with
     | [P; e; _; _; _] =>
         let '(v, _, f_day) := kc_P0 c in
-        match sr_q (sr_pow_m23 (sr_of (P / (v * f_day)))) with
-        | Some pw => let s0 := fst (kc_sigma_K0 c) * snd (kc_sigma_K0 c) in
-                     let mk := fst (kc_max_K c) * snd (kc_max_K c) in
-                     let var := s0 * s0 * pw / (1 - e * e) in
-                     Some (if Qle_bool (mk * mk) var then mk * mk else var)
+        match sr_q (sr_pow_m23 (kc_pow c) (sr_ofQ (P / (v * f_day)))) with
+        | Some pw => let s0 := bmul (B (fst (kc_sigma_K0 c))) (B (snd (kc_sigma_K0 c))) in
+                     let mk := bmul (B (fst (kc_max_K c))) (B (snd (kc_max_K c))) in
+                     let var := bdiv (bmul (bmul s0 s0) pw) (bsub b1 (bmul (B e) (B e))) in
+                     Some (if bleb (bmul mk mk) var then bmul mk mk else var)
         | None => None
         end
     | _ => None
     end.
-Definition spec_mu (c : kcase) : list Q :=
+Definition spec_cap_active (c : kcase) : bool :=
+  if kc_fixedK c then false else
+  match kc_theta c, spec_K_var c with
+  | [P; e; _; _; _], Some v => let mk := bmul (B (fst (kc_max_K c))) (B (snd (kc_max_K c))) in beq v (bmul mk mk)
+  | _, _ => false
+  end.
+Definition spec_mu (c : kcase) : list bq :=
   match kc_lin c with
-  | k :: v0 :: vs => (pp_mu k * pp_factor k) :: (pp_mu v0 * pp_factor v0) :: map (fun p => pp_mu p * pp_factor p) (kc_off c)
-                     ++ map (fun p => pp_mu p * pp_factor p) vs
+  | k :: v0 :: vs => pp_m k :: pp_m v0 :: map pp_m (kc_off c) ++ map pp_m vs
   | _ => []
   end.
-Definition spec_Lambda (c : kcase) : option (list Q) :=
+Definition spec_Lambda (c : kcase) : option (list bq) :=
   match spec_K_var c, kc_lin c with
-  | Some kv, _ :: v0 :: vs =>
-      let sq p := (pp_std p * pp_factor p) * (pp_std p * pp_factor p) in
-      Some (kv :: sq v0 :: map sq (kc_off c) ++ map sq vs)
+  | Some kv, _ :: v0 :: vs => Some (kv :: pp_v v0 :: map pp_v (kc_off c) ++ map pp_v vs)
   | _, _ => None
   end.
-Definition spec_jitter (c : kcase) : Q := nth 4 (kc_theta c) 0.
+Definition spec_jitter (c : kcase) : bq := B (nth 4 (kc_theta c) 0).
 (* C_s: variances with the jitter added *)
-Definition spec_var (c : kcase) : list Q := map (fun w => 1 / w + spec_jitter c * spec_jitter c) (kc_ivar c).
+Definition spec_var (c : kcase) : list bq := map (fun w => badd (bdiv b1 (B w)) (bmul (spec_jitter c) (spec_jitter c))) (kc_ivar c).
+Definition spec_y (c : kcase) : list bq := map B (kc_rv c).
 
-Definition dotq (a b : list Q) : Q := fold_right (fun xy acc => Qred (acc + fst xy * snd xy)) 0 (combine a b).
-Definition spec_B (c : kcase) (la : list Q) : qmat :=
+Definition scale_row (r la : list bq) : list bq := map (fun xl => bmul (fst xl) (snd xl)) (combine r la).
+Definition spec_B (c : kcase) (la : list bq) : qmat :=
   let M := spec_M c in let v := spec_var c in
-  map (fun n => map (fun m => Qred ((if Nat.eqb n m then nth n v 0 else 0) +
-                                    dotq (map (fun xl => fst xl * snd xl) (combine (nth n M []) la)) (nth m M []))) (seq 0 (n_times c))) (seq 0 (n_times c)).
-Definition spec_resid (c : kcase) : list Q :=
-  map (fun nr => Qred (dotq (snd nr) (spec_mu c) - nth (fst nr) (kc_rv c) 0)) (combine (seq 0 (n_times c)) (spec_M c)).
-Definition qprod (l : list Q) : Q := fold_right (fun x acc => Qred (x * acc)) 1 l.
+  map (fun n => map (fun m => badd (if Nat.eqb n m then nth n v b0 else b0) (dotq (scale_row (nth n M []) la) (nth m M [])))
+                    (seq 0 (n_times c))) (seq 0 (n_times c)).
+(* residual M mu - y *)
+Definition spec_resid (c : kcase) : list bq :=
+  map (fun ry => bsub (dotq (fst ry) (spec_mu c)) (snd ry)) (combine (spec_M c) (spec_y c)).
+Definition absq (d : bq) : bq := babs d.
 
-Record spec_out := mk_spec_out { so_chi2 : Q; so_absdet : Q; so_a : list Q; so_Ainv : qmat }.
+Record spec_out := mk_spec_out { so_chi2 : bq; so_absdet : bq; so_a : list bq; so_Ainv : qmat; so_A : qmat }.
 Definition spec_run (c : kcase) : option spec_out :=
   match spec_Lambda c with
   | None => None
   | Some la =>
-      let B := spec_B c la in
+      let Bm := spec_B c la in
       let r := spec_resid c in
-      match qsolve (n_times c) B r, qpivots (n_times c) B with
+      match qsolve (n_times c) Bm r, qpivots (n_times c) Bm with
       | Some x, Some ps =>
           let M := spec_M c in let v := spec_var c in let k := n_linear c in
-          let Ainv := map (fun i => map (fun j => Qred ((if Nat.eqb i j then 1 / nth i la 0 else 0) +
-                        dotq (map (fun nr => nth i (snd nr) 0 / nth (fst nr) v 0) (combine (seq 0 (n_times c)) M)) (map (fun r => nth j r 0) M)))
-                        (seq 0 k)) (seq 0 k) in
-          let rhs := map (fun i => Qred (nth i (spec_mu c) 0 / nth i la 0 +
-                        dotq (map (fun nr => nth i (snd nr) 0 / nth (fst nr) v 0) (combine (seq 0 (n_times c)) M)) (kc_rv c))) (seq 0 k) in
-          match qsolve k Ainv rhs with
-          | Some a => Some (mk_spec_out (dotq r x) (let d := qprod ps in if Qle_bool 0 d then d else - d) a Ainv)
-          | None => None
+          let MW := map (fun rv => map (fun x => bdiv x (snd rv)) (fst rv)) (combine M v) in    (* rows of C_s^-1 M *)
+          let Ainv := map (fun i => map (fun j => badd (if Nat.eqb i j then bdiv b1 (nth i la b0) else b0)
+                                                       (dotq (qcol i MW) (qcol j M))) (seq 0 k)) (seq 0 k) in
+          let rhs := map (fun i => badd (bdiv (nth i (spec_mu c) b0) (nth i la b0)) (dotq (qcol i MW) (spec_y c))) (seq 0 k) in
+          match qsolve k Ainv rhs, qinv k Ainv with
+          | Some a, Some A => Some (mk_spec_out (dotq r x) (absq (qprod ps)) a Ainv A)
+          | _, _ => None
           end
       | _, _ => None
       end
   end.
-(* ln N(y | M mu, B) = -1/2 (chi2 + ln((2 pi)^n |det B|)) as a symbolic real *)
+(* ln N(y | M mu, B) = -1/2 (chi2 + ln((2 pi)^n |det B|)) as a closed real expression *)
 Definition spec_ll (c : kcase) (o : spec_out) : rexpr :=
-  RMul (RC (-1) 2) (RAdd (RQ (so_chi2 o))
-     (RAdd (RMul (RC (Z.of_nat (n_times c)) 1) (RLn (RMul (RC 2 1) RPi))) (RLn (RQ (so_absdet o))))).
+  RMul (RC (-1) 2) (RAdd (RQ (btoQ (so_chi2 o)))
+     (RAdd (RMul (RC (Z.of_nat (n_times c)) 1) (RLn (RMul (RC 2 1) RPi))) (RLn (RQ (btoQ (so_absdet o)))))).
 
 (* ================= checks ================= *)
-Definition qlist_approx (tol : Q) (m o : list Q) : bool := Corr.list_eqb (Corr.approx_eqQ tol) m o.
-Definition qmat_approx (tol : Q) (m o : qmat) : bool := Corr.list_eqb (qlist_approx tol) m o.
+Definition approx_b (tol : Q) (m : bq) (o : Q) : bool := Corr.approx_eqQ tol (btoQ m) o.
+Definition blist_approx (tol : Q) (m : list bq) (o : list Q) : bool :=
+  (fix go (m : list bq) (o : list Q) := match m, o with [], [] => true | x :: m', y :: o' => approx_b tol x y && go m' o' | _, _ => false end) m o.
+Definition bmat_approx (tol : Q) (m : qmat) (o : list (list Q)) : bool :=
+  (fix go (m : qmat) (o : list (list Q)) := match m, o with [], [] => true | x :: m', y :: o' => blist_approx tol x y && go m' o' | _, _ => false end) m o.
 
 (* observed: marginal ll (API), and after test_likelihood_worker the public buffers a, Ainv *)
-Record kobs := mk_kobs { ko_ll : Q; ko_tol : Q; ko_a : list Q; ko_Ainv : qmat }.
+Record kobs := mk_kobs { ko_ll : Q; ko_tol : Q; ko_a : list Q; ko_Ainv : list (list Q) }.
 
-(* (1) the generated model agrees with the binary (translator + binary tie) *)
-Definition model_vs_impl (c : kcase) (o : kobs) : bool :=
-  let '(_, ll) := run_marginal c in
-  let '(st, _) := run_test c in
-  rclose 60 (ko_tol o) ll (ko_ll o) &&
-  match out_vec (n_linear c) (v_a st), out_mat (n_linear c) (n_linear c) (v_Ainv st) with
-  | Some a, Some Ai => qlist_approx (1 # 10000000) a (ko_a o) && qmat_approx (1 # 10000000) Ai (ko_Ainv o)
-  | _, _ => false
-  end.
-(* (2) the generated model computes the specification, exactly (the property, on this input):
-   chi^2, |det B|, the matrix B and its inverse on the marginal path; a, Ainv, chi^2, |det B| on the posterior path *)
-Definition q_eq_opt (a : option Q) (b : Q) : bool := match a with Some x => Qeq_bool x b | None => false end.
-Definition absq (d : Q) : Q := if Qle_bool 0 d then d else - d.
-Definition diag_absprod (n : nat) (m : arr2 sr) : option Q :=
+Definition b_eq_opt (a : option bq) (b : bq) : bool := match a with Some x => beq x b | None => false end.
+Definition diag_absprod (n : nat) (m : arr2 sr) : option bq :=
   match sr_all_q (map (fun i => m i i) (seq 0 n)) with Some ps => Some (absq (qprod ps)) | None => None end.
-Definition model_vs_spec (c : kcase) : bool :=
-  match spec_run c, spec_Lambda c with
-  | Some so, Some la =>
-      let '(st, ll) := run_marginal c in
-      let '(st2, ll2) := run_posterior c in
-      let n := n_times c in let k := n_linear c in
-      q_eq_opt (sr_q (l_chi2 st)) (so_chi2 so) && q_eq_opt (diag_absprod n (v_Btmp st)) (so_absdet so) &&
-      match out_mat n n (v_B st), out_mat n n (v_Binv st) with
-      | Some B, Some Bi => qmat_eqb B (spec_B c la) && is_inverse n (spec_B c la) Bi
-      | _, _ => false
-      end &&
-      q_eq_opt (sr_q (l_chi2 st2)) (so_chi2 so) && q_eq_opt (diag_absprod n (v_Btmp st2)) (so_absdet so) &&
-      match out_vec k (v_a st2), out_mat k k (v_Ainv st2) with
-      | Some a, Some Ai => Corr.list_eqb Qeq_bool a (so_a so) && qmat_eqb Ai (so_Ainv so)
-      | _, _ => false
-      end &&
-      rclose 80 (1 # 1000000000000) (RSub ll (spec_ll c so)) (0 # 1)
-  | _, _ => false
-  end.
+Definition blist_eqb (a b : list bq) : bool := qrow_eqb a b.
+
+(* bit 0: the generated model agrees with the binary (translator + binary tie): ll (API), a and Ainv (public buffers)
+   bit 1: the generated model computes the specification EXACTLY on this input: chi^2, |det B|, the matrix B and its
+          inverse on the marginal path; a, Ainv, chi^2, |det B| on the posterior path; ll as a real number *)
+Definition check_code (c : kcase) (o : kobs) : nat :=
+  let '(st, ll) := run_marginal c in
+  let '(st2, ll2) := run_posterior c in
+  let '(st3, _) := run_test c in
+  let n := n_times c in let k := n_linear c in
+  let impl_ok :=
+    rclose 60 (ko_tol o) (sr_rx ll) (ko_ll o) &&
+    match out_vec k (v_a st3), out_mat k k (v_Ainv st3) with
+    | Some a, Some Ai => blist_approx (1 # 10000000) a (ko_a o) && bmat_approx (1 # 10000000) Ai (ko_Ainv o)
+    | _, _ => false
+    end in
+  let spec_ok :=
+    match spec_run c, spec_Lambda c with
+    | Some so, Some la =>
+        b_eq_opt (sr_q (l_chi2 st)) (so_chi2 so) && b_eq_opt (diag_absprod n (v_Btmp st)) (so_absdet so) &&
+        match out_mat n n (v_B st), out_mat n n (v_Binv st) with
+        | Some Bm, Some Bi => qmat_eqb Bm (spec_B c la) && is_inverse n (spec_B c la) Bi
+        | _, _ => false
+        end &&
+        b_eq_opt (sr_q (l_chi2 st2)) (so_chi2 so) && b_eq_opt (diag_absprod n (v_Btmp st2)) (so_absdet so) &&
+        match out_vec k (v_a st2), out_mat k k (v_Ainv st2) with
+        | Some a, Some Ai => blist_eqb a (so_a so) && qmat_eqb Ai (so_Ainv so)
+        | _, _ => false
+        end &&
+        rclose 80 (1 # 1000000000000) (RSub (sr_rx ll) (spec_ll c so)) (0 # 1) &&
+        rclose 80 (1 # 1000000000000) (RSub (sr_rx ll2) (spec_ll c so)) (0 # 1)
+    | _, _ => false
+    end in
+  ((if impl_ok then 0 else 1) + (if spec_ok then 0 else 2))%nat.
